@@ -41,7 +41,9 @@ def configs(tier):
             out.append({"builder": "dict", "entries": n, "lt": lt, "prior": (n < 3)})
     # read-back through neighbors(): no prior structure, so the new links are all there is
     for lt in ("DE", "UE"):
-        out.append({"builder": "dict", "entries": 2 if tier == "quick" else 3, "lt": lt, "prior": False})
+        out.append({"builder": "dict", "entries": 2, "lt": lt, "prior": False, "readback": True})
+        if tier != "quick":
+            out.append({"builder": "dict", "entries": 3, "lt": lt, "prior": False})
     for lt in (("DE",) if tier == "quick" else ("DE", "UE")):
         for n in (0, 1, 2) if tier == "quick" else (0, 1, 2, 3):
             out.append({"builder": "matrix", "n": n, "lt": lt, "prior": n < 3})
@@ -94,12 +96,12 @@ if uni is not None:
                 elif undirected:
                     want.append(p[0])
             readback = readback and (neighbors(x, 0, 1) == want)
-            for y in pool:
+            for y in (pool if check_fl else []):
                 n = 0
                 for p in pairs:
                     if (p[0] is x and p[1] is y) or (undirected and p[0] is y and p[1] is x and not (x is y)):
                         n = n + 1
-                readback_fl = readback_fl and (len(find_links(x, y)) == n)
+                readback_fl = readback_fl and (len(find_links(x, y, True, 1)) == n)
 frame = (P._vertices == pre_members) and ([list(l._vertices) for l in plinks] == pre_ends)
 '''
 
@@ -147,7 +149,9 @@ def scenario(B, p):
             entries.append(B.mktuple([B.ref(f"key{i}", verts), B.reflist(f"vals{i}", verts, 2, 2)]))
         env["entries"] = B.mklist(entries)
         env["check_readback"] = not p["prior"]
-        env["oneshot"] = B.bool("oneshot_values") if not p["prior"] else False
+        # the dedicated read-back configurations also read back through find_links and take one-shot iterators
+        env["check_fl"] = bool(p.get("readback"))
+        env["oneshot"] = B.bool("oneshot_values") if p.get("readback") else False
         env["undirected"] = p["lt"] != "DE"
         out = B.run(PROG_DICT, env)
         B.observe("raised", out["raised"])
